@@ -6,6 +6,9 @@
 //! EVERY array returned by EVERY step (members of lists / pairs included) and compares, for the modelled steps, outcome
 //! class and SHAPE with the store machine of `lean/ArrModel/C01.lean` (driver answer).  Steps named `u.<op>` are public
 //! operations outside the modelled set: monitor only; their recorded result shape keeps the model store aligned.
+//! In `exec` every step that has an `impl … for Result<Array<T>, ArrayError>` is run a second time on `Ok(array)` (the chained
+//! receiver): the twin's arrays are monitored, its class and shapes must equal the plain call's; the five getters are asked on both
+//! receivers for every returned array; option arguments are also passed in their other spellings (String / &str / enum).
 use arrharness::*;
 use std::any::Any;
 use std::cell::{Cell, RefCell};
@@ -624,10 +627,10 @@ fn is_num(t: &str) -> bool { matches!(t, "i32" | "i64" | "u8" | "usize" | "f64" 
 fn is_ops(t: &str) -> bool { matches!(t, "i32" | "i64" | "f64") }
 fn is_int(t: &str) -> bool { matches!(t, "i32" | "i64" | "u8" | "usize" | "isize" | "bool" | "i8") }
 
-struct G { rng: Rng, steps: Vec<String>, store: Vec<V>, faithful: Vec<bool>, ty: &'static str, wide: bool }
+struct G { rng: Rng, steps: Vec<String>, store: Vec<V>, faithful: Vec<bool>, ty: &'static str, wide: bool, big: bool }
 
 impl G {
-    fn new(seed: u64, ty: &'static str) -> G { G { rng: Rng::new(seed), steps: vec![], store: vec![], faithful: vec![], ty, wide: false } }
+    fn new(seed: u64, ty: &'static str) -> G { G { rng: Rng::new(seed), steps: vec![], store: vec![], faithful: vec![], ty, wide: false, big: false } }
     fn coin(&mut self, pct: usize) -> bool { self.rng.below(100) < pct }
     fn dim(&mut self) -> usize {
         // robustness stream: zero-length axes far more often (and in any position), axis lengths 6..17
@@ -656,7 +659,7 @@ impl G {
     }
     fn arrays(&self, pred: &dyn Fn(&str) -> bool) -> Vec<usize> {
         (0..self.store.len()).filter(|&i| match &self.store[i] { V::L(_) | V::Opq(_) | V::Nil => false,
-            v => pred(ty_of(v)) && shape_of(v).map_or(false, |s| s.iter().product::<usize>() <= 400 && s.len() <= 6) }).collect()
+            v => pred(ty_of(v)) && shape_of(v).map_or(false, |s| s.iter().product::<usize>() <= (if self.big { 10000 } else { 400 }) && s.len() <= 6) }).collect()
     }
     fn pick(&mut self, pred: &dyn Fn(&str) -> bool) -> Option<usize> {
         let c = self.arrays(pred);
@@ -1012,9 +1015,43 @@ fn gen(tier: &str, seed: u64, out: &mut dyn FnMut(String)) {
         }
         emit_chain(&g, out);
     }
+    // (vi) robustness stream, sizes: one-step chains on arrays beyond the small scope (axis lengths 7..17 in every position, element
+    //      counts > 256, > 1024, > 4096).  The store machine is quadratic in the element count for several operations, so the
+    //      shapes above 1000 elements get fewer operations / element types (quick), the full inventory runs up to 700 elements.
+    {
+        let heavy = ["vdot", "outer", "inner", "matmul", "dot", "vander", "u.convolve", "u.linspace_a", "u.geomspace_a", "u.logspace_a", "u.det", "u.qr", "u.eigvals", "u.eig", "u.solve", "u.norm"];
+        let cheap = ["reshape", "ravel", "flip", "roll", "op_bitand", "op_bitxor_assign", "op_bitor_s", "broadcast_to", "atleast", "expand_dims", "squeeze", "repeat", "argmax", "count_nonzero",
+            "transpose", "resize", "cycle_take", "map", "op_add", "negative", "max", "sum", "cumsum", "array_split", "concatenate", "sort", "delete", "append", "u.slice", "op_not"];
+        let medium: Vec<Vec<usize>> = vec![vec![300], vec![17, 16], vec![5, 5, 5, 5], vec![1, 16, 1, 17], vec![9, 9], vec![7, 1, 9], vec![3, 2, 8], vec![16, 17], vec![2, 8, 3], vec![8, 2, 3], vec![2, 3, 4, 5, 2], vec![64], vec![100]];
+        let large: Vec<Vec<usize>> = vec![vec![1030], vec![40, 30], vec![4100], vec![70, 70]];
+        for (oi, op) in all_ops().iter().enumerate() {
+            if CTORS.contains(&op.as_str()) || heavy.contains(&op.as_str()) || op.starts_with("u.") && (STR_UNARY.contains(&&op[2..]) || STR_BINARY.contains(&&op[2..])) || OPS_STR.contains(&op.as_str()) { continue; }
+            let tys = types_for(op);
+            for (si, shape) in medium.iter().enumerate() {
+                let picks: Vec<&str> = if thorough { let c: Vec<&str> = tys.iter().copied().filter(|t| ["u8", "i8", "bool", "i64", "f64"].contains(t)).collect(); (0..c.len().min(2)).map(|k| c[(oi + si + k) % c.len()]).collect() }
+                    else { let c: Vec<&str> = tys.iter().copied().filter(|t| ["u8", "i8", "bool", "i64", "f64"].contains(t)).collect(); if c.is_empty() || (si >= 7 && (oi + si) % 4 != 0) { vec![] } else { vec![c[(oi + si) % c.len()]] } };
+                for ty in picks {
+                    let mut g = G::new(0xB16 + (oi * 100 + si) as u64, ty); g.big = true;
+                    g.fresh(ty, shape);
+                    if g.emit(op) { emit_chain(&g, out); }
+                }
+            }
+            for (si, shape) in large.iter().enumerate() {
+                let n: usize = shape.iter().product();
+                if n > 2000 && !(cheap.contains(&op.as_str()) && (thorough || (oi + si) % 3 == 0)) { continue; }
+                if n <= 2000 && !thorough && !cheap.contains(&op.as_str()) && oi % 3 != 0 { continue; }
+                let c: Vec<&str> = tys.iter().copied().filter(|t| ["u8", "i8", "bool", "i64"].contains(t)).collect();
+                if c.is_empty() { continue; }
+                let ty = c[(oi + si) % c.len()];
+                let mut g = G::new(0xB17 + (oi * 100 + si) as u64, ty); g.big = true;
+                g.fresh(ty, shape);
+                if g.emit(op) { emit_chain(&g, out); }
+            }
+        }
+    }
     // (v) robustness stream: seeded random chains over shapes with zero-length axes in any position, axis lengths up to 17 and
     //     the three byte-sized element types with >= 32 elements
-    let n_wide = if thorough { 8000 } else { 5000 };
+    let n_wide = if thorough { 8000 } else { 3500 };
     let mut top = Rng::new(seed ^ 0x3A5E_C01);
     for c in 0..n_wide {
         let ty = TYPES2[top.below(TYPES2.len())];
@@ -1126,5 +1163,5 @@ fn nontrivial(_op: &str, args: &[&str]) -> bool {
 
 fn main() {
     harness_main(Spec { prop: "C01", gen, exec, nontrivial, hang_secs: 30,
-        rule: "one case = one chain of public operations on earlier results. Enumerated: every operation of the inventory (modelled and `u.` = monitor-only) as a one-step chain on base arrays of every applicable element type and shapes incl. rank 0..4, unit axes, zero-length axes; the refusal stream (new/create/reshape/resize/broadcast_to with non-fitting counts); then seeded random chains (length 1..12 quick, 1..40 thorough) typed so that most steps apply. After EVERY step the real result (each member of a Vec/tuple) is checked: elements.len()==product(shape), len(), ndim(), is_empty() agree. Modelled steps are also compared with the store machine on outcome class and shape. distinct = distinct chains; non-trivial = some step consumes the result of a step that consumed an earlier result" });
+        rule: "one case = one chain of public operations on earlier results. Enumerated: every operation of the inventory (modelled and `u.` = monitor-only) as a one-step chain on base arrays of every applicable element type and shapes incl. rank 0..4, unit axes, zero-length axes; the refusal stream (new/create/reshape/resize/broadcast_to with non-fitting counts); then seeded random chains (length 1..12 quick, 1..40 thorough) typed so that most steps apply. After EVERY step the real result (each member of a Vec/tuple) is checked: elements.len()==product(shape), len(), ndim(), is_empty() agree. Modelled steps are also compared with the store machine on outcome class and shape. Robustness streams: every step with a Result-receiver impl is also called on Ok(array) (monitored, same class and shapes required); len/ndim/is_empty/get_shape/get_elements are also asked through Ok(array) for every returned array; option arguments as String / &str / enum; i8 as third byte-sized type; base shapes with zero-length axes in every position and >= 32 elements; refusal stream around zero-length axes; one-step chains on shapes up to 4900 elements; random chains over zero-length / long axes. distinct = distinct chains; non-trivial = some step consumes the result of a step that consumed an earlier result" });
 }
